@@ -6,7 +6,7 @@
     Part P: facts about the schemas generated from the Rust sources (gen/CtapSchema.v) against
             the specification tables (CtapSpec.v), by computation.
     Part S: status bytes (finite domain: 256-element sweeps lifted with [forallb_forall]). *)
-From Coq Require Import String Lia.
+From Coq Require Import String Lia Sorted.
 From PK Require Import Lib.Cbor Lib.CborFacts Wire.Serde Wire.CtapSpec
   Wire.gen.CtapSchema Wire.gen.Status Wire.gen.WebauthnError.
 Open Scope N_scope.
@@ -189,20 +189,19 @@ Proof.
   destruct (f_skip f); cbn [negb map fst]; rewrite IH; reflexivity.
 Qed.
 
-(** G3: every entry on the wire is a member that is present, with its value; in particular
-    a [None] member under [skip_serializing_if] is left out, not written as null *)
+(** G3: every entry on the wire is a member that is present, with its value; a [None] member
+    under [skip_serializing_if] is left out, not written as null *)
 Theorem ser_entries_present m fs vals k v :
-  (forall f, In f fs -> f_skip f = true) ->
+  Forall2 absent_allowed fs vals ->
   In (k, v) (ser_entries m fs vals) -> exists f, In (f, Some v) (combine fs vals) /\ k = key_of m f.
 Proof.
-  intros Hskip. revert vals. induction fs as [|f fs IH]; intros [|x vals]; cbn [ser_entries combine]; try (intros []).
-  assert (Hs : forall g, In g fs -> f_skip g = true) by (intros g Hg; apply Hskip; right; exact Hg).
+  induction 1 as [|f x fs vals Hx _ IH]; cbn [ser_entries combine]; [intros []|].
   destruct x as [c|].
   - intros [E|Hin].
     + inversion E. subst. exists f. split; [left; reflexivity|reflexivity].
-    + destruct (IH Hs vals Hin) as [g [Hg Ek]]. exists g. split; [right; exact Hg|exact Ek].
-  - rewrite (Hskip f (or_introl eq_refl)). intros Hin.
-    destruct (IH Hs vals Hin) as [g [Hg Ek]]. exists g. split; [right; exact Hg|exact Ek].
+    + destruct (IH Hin) as [g [Hg Ek]]. exists g. split; [right; exact Hg|exact Ek].
+  - destruct (Hx eq_refl) as [Hs _]. rewrite Hs. intros Hin.
+    destruct (IH Hin) as [g [Hg Ek]]. exists g. split; [right; exact Hg|exact Ek].
 Qed.
 
 (** G4: entries with unknown keys are ignored, wherever they stand *)
@@ -347,4 +346,563 @@ Proof.
     apply (nth_error_nth _ _ None) in Ey. rewrite Hn in Ey. subst y.
     unfold present_or_default in Hp. rewrite Hreq in Hp. discriminate.
   - apply nth_error_None in Ey. assert (i < length fs)%nat by (apply nth_error_Some; congruence). lia.
+Qed.
+
+(** * Part T: the typed layer *)
+
+Section KindInd.
+  Variable P : kind -> Prop.
+  Hypothesis HBytes : P KBytes.
+  Hypothesis HText : P KText.
+  Hypothesis HUint : forall mx, P (KUint mx).
+  Hypothesis HNz : P KNzU128.
+  Hypothesis HBool : P KBool.
+  Hypothesis HRaw : P KRaw.
+  Hypothesis HAuth : P KAuthData.
+  Hypothesis HAaguid : P KAaguid.
+  Hypothesis HU8Arr : forall n, P (KU8Arr n).
+  Hypothesis HAlg : P KAlg.
+  Hypothesis HEnum : forall vs o, P (KEnum vs o).
+  Hypothesis HLenient : forall k d, P k -> P (KLenient k d).
+  Hypothesis HOpt : forall k, P k -> P (KOpt k).
+  Hypothesis HVec : forall k, P k -> P (KVec k).
+  Hypothesis HLenientVec : forall k, P k -> P (KLenientVec k).
+  Hypothesis HMapBytes : forall k, P k -> P (KMapBytes k).
+  Hypothesis HT : forall fs, Forall (fun fk : fattr * kind => P (snd fk)) fs -> P (KTStruct fs).
+  Hypothesis HI : forall fs, Forall (fun fk : fattr * kind => P (snd fk)) fs -> P (KIStruct fs).
+
+  Fixpoint kind_ind' (k : kind) : P k :=
+    match k with
+    | KBytes => HBytes | KText => HText | KUint mx => HUint mx | KNzU128 => HNz | KBool => HBool
+    | KRaw => HRaw | KAuthData => HAuth | KAaguid => HAaguid | KU8Arr n => HU8Arr n | KAlg => HAlg
+    | KEnum vs o => HEnum vs o
+    | KLenient k' d => HLenient k' d (kind_ind' k')
+    | KOpt k' => HOpt k' (kind_ind' k')
+    | KVec k' => HVec k' (kind_ind' k')
+    | KLenientVec k' => HLenientVec k' (kind_ind' k')
+    | KMapBytes k' => HMapBytes k' (kind_ind' k')
+    | KTStruct fs =>
+        HT fs ((fix go (l : list (fattr * kind)) : Forall (fun fk : fattr * kind => P (snd fk)) l :=
+                  match l with
+                  | [] => Forall_nil _
+                  | fk :: r => Forall_cons fk (kind_ind' (snd fk)) (go r)
+                  end) fs)
+    | KIStruct fs =>
+        HI fs ((fix go (l : list (fattr * kind)) : Forall (fun fk : fattr * kind => P (snd fk)) l :=
+                  match l with
+                  | [] => Forall_nil _
+                  | fk :: r => Forall_cons fk (kind_ind' (snd fk)) (go r)
+                  end) fs)
+    end.
+End KindInd.
+
+(** the struct cases of the three fixpoints, with the inner loops as named functions *)
+Lemma de_kind_struct_T fs v :
+  de_kind (KTStruct fs) v =
+  match untag v with
+  | CMap es =>
+      match de_struct TextKeys (map fst fs) es with
+      | None => None
+      | Some raws => match de_fields fs raws with
+                     | Some vals => Some (ser_struct TextKeys (map fst fs) vals)
+                     | None => None
+                     end
+      end
+  | _ => None
+  end.
+Proof. reflexivity. Qed.
+
+Lemma de_kind_struct_I fs v :
+  de_kind (KIStruct fs) v =
+  match untag v with
+  | CMap es =>
+      match de_struct IntKeys (map fst fs) es with
+      | None => None
+      | Some raws => match de_fields fs raws with
+                     | Some vals => Some (ser_struct IntKeys (map fst fs) vals)
+                     | None => None
+                     end
+      end
+  | _ => None
+  end.
+Proof. reflexivity. Qed.
+
+Lemma wt_struct_T fs es : wt (KTStruct fs) (CMap es) = wt_entries TextKeys fs es.
+Proof. reflexivity. Qed.
+Lemma wt_struct_I fs es : wt (KIStruct fs) (CMap es) = wt_entries IntKeys fs es.
+Proof. reflexivity. Qed.
+
+Lemma kind_ok_fields (fs : list (fattr * kind)) :
+  (fix go (fs : list (fattr * kind)) : bool :=
+     match fs with [] => true | (_, k') :: r => kind_ok k' && go r end) fs
+  = forallb (fun fk => kind_ok (snd fk)) fs.
+Proof. induction fs as [|[f k] fs IH]; [reflexivity|]. cbn [forallb snd]. rewrite <- IH. reflexivity. Qed.
+
+Lemma kind_ok_struct_T fs :
+  kind_ok (KTStruct fs) = keys_ok TextKeys (map fst fs) && forallb (fun fk => kind_ok (snd fk)) fs.
+Proof. rewrite <- kind_ok_fields. reflexivity. Qed.
+Lemma kind_ok_struct_I fs :
+  kind_ok (KIStruct fs) = keys_ok IntKeys (map fst fs) && forallb (fun fk => kind_ok (snd fk)) fs.
+Proof. rewrite <- kind_ok_fields. reflexivity. Qed.
+
+(** the round-trip property of one kind *)
+Definition rt (k : kind) : Prop := kind_ok k = true -> forall v, wt k v = true -> de_kind k v = Some v.
+
+Lemma wt_fields_absent fs vals : wt_fields fs vals = true -> Forall2 absent_allowed (map fst fs) vals.
+Proof.
+  revert vals. induction fs as [|[f k] fs IH]; intros [|v vals]; cbn [wt_fields map fst]; try discriminate.
+  - constructor.
+  - intros H. apply andb_true_iff in H as [H1 H2]. constructor; [|apply IH; exact H2].
+    intros ->. unfold absent_ok in H1. apply andb_true_iff in H1 as [Hs Hd]. split; [exact Hs|].
+    destruct (f_dflt f); congruence.
+Qed.
+
+Lemma de_fields_wt fs vals :
+  Forall (fun fk : fattr * kind => rt (snd fk)) fs -> forallb (fun fk => kind_ok (snd fk)) fs = true ->
+  wt_fields fs vals = true -> de_fields fs vals = Some vals.
+Proof.
+  intros Hrt. revert vals. induction Hrt as [|[f k] fs Hk _ IH]; intros [|v vals]; cbn [wt_fields de_fields forallb snd];
+    try discriminate; [reflexivity|].
+  intros Hok H. apply andb_true_iff in Hok as [Hok1 Hok2]. apply andb_true_iff in H as [H1 H2].
+  rewrite (IH vals Hok2 H2). cbn [snd] in Hk.
+  destruct v as [c|]; cbn [de_field].
+  - apply andb_true_iff in H1 as [Hw Hn]. rewrite (Hk Hok1 c Hw).
+    apply negb_true_iff in Hn. rewrite Hn. reflexivity.
+  - unfold absent_ok in H1. apply andb_true_iff in H1 as [Hs Hd].
+    destruct (f_dflt f); try discriminate. rewrite Hs. reflexivity.
+Qed.
+
+(** a message given field by field is read back field by field *)
+Lemma struct_fields_round m fs vals :
+  key_distinct m (map fst fs) ->
+  Forall (fun fk : fattr * kind => rt (snd fk)) fs -> forallb (fun fk => kind_ok (snd fk)) fs = true ->
+  wt_fields fs vals = true ->
+  de_struct m (map fst fs) (ser_entries m (map fst fs) vals) = Some vals /\ de_fields fs vals = Some vals.
+Proof.
+  intros Hd Hrt Hok Hw. split.
+  - apply de_ser_struct; [exact Hd|apply wt_fields_absent; exact Hw].
+  - apply de_fields_wt; assumption.
+Qed.
+
+(** a canonical map is the serialisation of some field-by-field message *)
+Lemma wt_entries_nil m es : wt_entries m [] es = match es with [] => true | _ => false end.
+Proof. reflexivity. Qed.
+
+Lemma wt_entries_cons m f k fs es :
+  wt_entries m ((f, k) :: fs) es =
+  match es with
+  | (key, x) :: es' =>
+      if cbor_eqb key (key_of m f)
+      then wt k x && negb (is_opt k && f_skip f && is_null x) && wt_entries m fs es'
+      else absent_ok f && wt_entries m fs es
+  | [] => absent_ok f && wt_entries m fs []
+  end.
+Proof. reflexivity. Qed.
+
+Lemma wt_entries_ser m : forall fs es, wt_entries m fs es = true ->
+  exists vals, es = ser_entries m (map fst fs) vals /\ wt_fields fs vals = true.
+Proof.
+  induction fs as [|[f k] fs IH]; intros es.
+  - rewrite wt_entries_nil. destruct es; [|discriminate]. intros _. exists []. split; reflexivity.
+  - rewrite wt_entries_cons. destruct es as [|[key x] es'].
+    + intros H. apply andb_true_iff in H as [Ha H]. destruct (IH [] H) as [vals [E Hw]].
+      exists (None :: vals). cbn [map fst ser_entries wt_fields]. rewrite Ha, Hw.
+      unfold absent_ok in Ha. apply andb_true_iff in Ha as [Hs _]. rewrite Hs. split; [exact E|reflexivity].
+    + destruct (cbor_eqb key (key_of m f)) eqn:Ek.
+      * intros H. apply andb_true_iff in H as [H H3]. apply cbor_eqb_eq in Ek. subst key.
+        destruct (IH es' H3) as [vals [E Hw]]. exists (Some x :: vals).
+        cbn [map fst ser_entries wt_fields]. rewrite H, Hw, <- E. split; reflexivity.
+      * intros H. apply andb_true_iff in H as [Ha H]. destruct (IH _ H) as [vals [E Hw]].
+        exists (None :: vals). cbn [map fst ser_entries wt_fields]. rewrite Ha, Hw.
+        unfold absent_ok in Ha. apply andb_true_iff in Ha as [Hs _]. rewrite Hs. split; [exact E|reflexivity].
+Qed.
+
+Lemma map_opt_id {A} (f : A -> option A) l : (forall x, In x l -> f x = Some x) -> map_opt f l = Some l.
+Proof.
+  induction l as [|x l IH]; intros H; cbn [map_opt]; [reflexivity|].
+  rewrite (H x (or_introl eq_refl)). rewrite IH; [reflexivity|]. intros y Hy. apply H. right. exact Hy.
+Qed.
+
+Lemma filter_map_id {A} (f : A -> option A) l : (forall x, In x l -> f x = Some x) -> filter_map f l = l.
+Proof.
+  induction l as [|x l IH]; intros H; cbn [filter_map]; [reflexivity|].
+  rewrite (H x (or_introl eq_refl)). rewrite IH; [reflexivity|]. intros y Hy. apply H. right. exact Hy.
+Qed.
+
+Lemma de_u8_all l : all_u8 l = true -> map_opt de_u8 l = Some l.
+Proof.
+  intros H. apply map_opt_id. intros x Hx. unfold all_u8 in H. rewrite forallb_forall in H.
+  specialize (H x Hx). destruct x; try discriminate. unfold de_u8. cbn [int_value].
+  apply andb_true_iff in H as [H1 H2]. rewrite H1. cbn [andb]. rewrite H2. reflexivity.
+Qed.
+
+(** T1: deserialising a canonical value of any kind yields that value (and serialising the
+    result again yields the same CBOR) *)
+Theorem de_kind_wt : forall k, rt k.
+Proof.
+  induction k using kind_ind'; unfold rt; intros Hok v Hw.
+  - destruct v; try discriminate. reflexivity.
+  - destruct v; try discriminate. reflexivity.
+  - destruct v; try discriminate. cbn [wt] in Hw. cbn [de_kind int_value]. rewrite Hw. reflexivity.
+  - cbn [wt] in Hw. cbn [de_kind]. destruct (de_nzu128 v) as [c|]; [|discriminate].
+    apply cbor_eqb_eq in Hw. subst. reflexivity.
+  - destruct v; try discriminate. reflexivity.
+  - reflexivity.
+  - cbn [wt] in Hw. destruct v; try discriminate. cbn [de_kind].
+    destruct (de_authdata (CBytes b)) as [c|]; [|discriminate]. apply cbor_eqb_eq in Hw. subst. reflexivity.
+  - destruct v; try discriminate. cbn [wt] in Hw. cbn [de_kind untag]. rewrite Hw. reflexivity.
+  - destruct v; try discriminate. cbn [wt] in Hw. apply andb_true_iff in Hw as [H1 H2].
+    cbn [de_kind]. unfold de_u8arr. cbn [untag]. rewrite H1. rewrite de_u8_all by exact H2. reflexivity.
+  - destruct v; try discriminate. cbn [wt] in Hw. cbn [de_kind]. rewrite Hw. reflexivity.
+  - destruct v; try discriminate. cbn [wt] in Hw. cbn [de_kind untag].
+    destruct o.
+    + destruct (find_variant vs b) as [n|]; [|reflexivity]. apply beq_eq in Hw. subst. reflexivity.
+    + destruct (find_variant vs b) as [n|]; [|discriminate]. apply beq_eq in Hw. subst. reflexivity.
+  - cbn [wt] in Hw. cbn [kind_ok] in Hok. cbn [de_kind]. rewrite (IHk Hok v Hw). reflexivity.
+  - cbn [kind_ok] in Hok. cbn [wt] in Hw. cbn [de_kind].
+    destruct v; try reflexivity; apply (IHk Hok); exact Hw.
+  - cbn [kind_ok] in Hok. destruct v; try discriminate. cbn [wt] in Hw. cbn [de_kind untag].
+    rewrite map_opt_id; [reflexivity|]. intros x Hx. rewrite forallb_forall in Hw. apply (IHk Hok). apply Hw. exact Hx.
+  - cbn [kind_ok] in Hok. destruct v; try discriminate. cbn [wt] in Hw. cbn [de_kind untag].
+    rewrite filter_map_id; [reflexivity|]. intros x Hx. rewrite forallb_forall in Hw. apply (IHk Hok). apply Hw. exact Hx.
+  - cbn [kind_ok] in Hok. destruct v; try discriminate. cbn [wt] in Hw. cbn [de_kind untag].
+    rewrite map_opt_id; [reflexivity|]. intros [a b] Hx. rewrite forallb_forall in Hw. specialize (Hw _ Hx).
+    cbn [fst snd] in *. destruct a; try discriminate. cbn [de_bytes]. rewrite (IHk Hok b Hw). reflexivity.
+  - destruct v; try discriminate. rewrite wt_struct_T in Hw. rewrite kind_ok_struct_T in Hok.
+    apply andb_true_iff in Hok as [Hk Hf]. apply keys_ok_distinct in Hk.
+    destruct (wt_entries_ser TextKeys fs l Hw) as [vals [E Hv]].
+    destruct (struct_fields_round TextKeys fs vals Hk H Hf Hv) as [R1 R2].
+    rewrite de_kind_struct_T. cbn [untag]. rewrite E, R1, R2. reflexivity.
+  - destruct v; try discriminate. rewrite wt_struct_I in Hw. rewrite kind_ok_struct_I in Hok.
+    apply andb_true_iff in Hok as [Hk Hf]. apply keys_ok_distinct in Hk.
+    destruct (wt_entries_ser IntKeys fs l Hw) as [vals [E Hv]].
+    destruct (struct_fields_round IntKeys fs vals Hk H Hf Hv) as [R1 R2].
+    rewrite de_kind_struct_I. cbn [untag]. rewrite E, R1, R2. reflexivity.
+Qed.
+
+(** T2: a message, given member by member in canonical form, survives
+    [ciborium::ser::into_writer] followed by [ciborium::de::from_reader]. *)
+Theorem de_msg_ser_msg fs vals :
+  kind_ok (KIStruct fs) = true -> wt_fields fs vals = true ->
+  cbor_wf (ser_struct IntKeys (map fst fs) vals) = true ->
+  (depth (ser_struct IntKeys (map fst fs) vals) < cbor_fuel)%nat ->
+  de_msg fs (ser_msg fs vals) = Some (ser_struct IntKeys (map fst fs) vals).
+Proof.
+  intros Hok Hw Hwf Hd. unfold de_msg, ser_msg. rewrite decode_encode_read by assumption.
+  rewrite kind_ok_struct_I in Hok. apply andb_true_iff in Hok as [Hk Hf]. apply keys_ok_distinct in Hk.
+  assert (Hrt : Forall (fun fk : fattr * kind => rt (snd fk)) fs)
+    by (apply Forall_forall; intros fk _; apply de_kind_wt).
+  destruct (struct_fields_round IntKeys fs vals Hk Hrt Hf Hw) as [R1 R2].
+  rewrite de_kind_struct_I. unfold ser_struct at 1. cbn [untag]. rewrite R1, R2. reflexivity.
+Qed.
+
+(** ** the same facts for a whole integer-keyed message (as a parsed CBOR value) *)
+Lemma de_kind_I_map fs es :
+  de_kind (KIStruct fs) (CMap es) =
+  match de_struct IntKeys (map fst fs) es with
+  | None => None
+  | Some raws => match de_fields fs raws with
+                 | Some vals => Some (ser_struct IntKeys (map fst fs) vals)
+                 | None => None
+                 end
+  end.
+Proof. reflexivity. Qed.
+
+Theorem msg_insert_unknown fs es1 es2 k v :
+  classify IntKeys (map fst fs) k = Some IdUnknown ->
+  de_kind (KIStruct fs) (CMap (es1 ++ (k, v) :: es2)) = de_kind (KIStruct fs) (CMap (es1 ++ es2)).
+Proof. intros H. rewrite !de_kind_I_map. rewrite (de_struct_insert_unknown _ _ _ _ _ _ H). reflexivity. Qed.
+
+Theorem msg_duplicate fs i k1 v1 k2 v2 es1 es2 es3 :
+  classify IntKeys (map fst fs) k1 = Some (IdField i) -> classify IntKeys (map fst fs) k2 = Some (IdField i) ->
+  de_kind (KIStruct fs) (CMap (es1 ++ (k1, v1) :: es2 ++ (k2, v2) :: es3)) = None.
+Proof. intros H1 H2. rewrite de_kind_I_map. rewrite (de_struct_duplicate _ _ _ _ _ _ _ _ _ _ H1 H2). reflexivity. Qed.
+
+Theorem msg_missing_required fs es i f :
+  nth_error (map fst fs) i = Some f -> f_dflt f = DRequired ->
+  (forall k v, In (k, v) es -> classify IntKeys (map fst fs) k <> Some (IdField i)) ->
+  de_kind (KIStruct fs) (CMap es) = None.
+Proof. intros H1 H2 H3. rewrite de_kind_I_map. rewrite (de_struct_missing_required _ _ _ _ _ H1 H2 H3). reflexivity. Qed.
+
+Theorem msg_bad_key fs es k v :
+  In (k, v) es -> classify IntKeys (map fst fs) k = None -> de_kind (KIStruct fs) (CMap es) = None.
+Proof. intros H1 H2. rewrite de_kind_I_map. rewrite (de_struct_bad_key _ _ _ _ _ H1 H2). reflexivity. Qed.
+
+(** canonical forms exist for the leaf types whose [wt] is stated as a fixed point of the
+    normalisation: every 37-byte authenticator data with valid flags and neither AT nor ED *)
+Lemma authdata_canonical b :
+  length b = 37%nat -> N.land (nth 32 b 0) (255 - FLAG_BITS) = 0 -> N.land (nth 32 b 0) (64 + 128) = 0 ->
+  wt KAuthData (CBytes b) = true.
+Proof.
+  intros Hl H1 H2. cbn [wt]. unfold de_authdata. cbn [untag]. rewrite Hl.
+  replace (N.of_nat 37 <=? SCRATCH) with true by reflexivity.
+  unfold authdata_norm. rewrite Hl. replace (37 <? 37)%nat with false by reflexivity.
+  rewrite H1, H2. cbn [N.eqb negb option_map]. rewrite <- Hl, firstn_all. apply cbor_eqb_refl.
+Qed.
+
+(** * Part P: the generated schemas against the specification *)
+Import String.
+Local Open Scope string_scope.
+Local Open Scope list_scope.
+Local Open Scope N_scope.
+
+Definition is_required (d : dflt) : bool := match d with DRequired => true | _ => false end.
+Definition dflt_none (d : dflt) : bool := match d with DNone => true | _ => false end.
+
+(** the number and requiredness the specification gives to the member a field stands for *)
+Definition field_matches_spec (msg : string) (fk : fattr * kind) : bool :=
+  match spec_of_field msg (f_rust (fst fk)) with
+  | Some (num, req) => (f_key (fst fk) =? num) && Bool.eqb (is_required (f_dflt (fst fk))) req
+  | None => false
+  end.
+
+Fixpoint asc (l : list N) : bool :=
+  match l with
+  | x :: ((y :: _) as r) => (x <? y) && asc r
+  | _ => true
+  end.
+
+Definition schema_ok (mf : string * list (fattr * kind)) : bool :=
+  let (msg, fs) := mf in
+  forallb (field_matches_spec msg) fs                        (* numbers and requiredness as specified *)
+  && asc (map (fun fk : fattr * kind => f_key (fst fk)) fs)   (* declared in strictly ascending order *)
+  && forallb (fun fk : fattr * kind => Bool.eqb (f_skip (fst fk)) (dflt_none (f_dflt (fst fk)))) fs
+                                                             (* a member that may be [None] is skipped when [None] *)
+  && kind_ok (KIStruct fs).                                  (* keys distinct and at most 255, recursively *)
+
+Theorem schemas_match_spec :
+  forallb schema_ok ALL_MESSAGES = true /\ map fst ALL_MESSAGES = map fst SPEC.
+Proof. split; vm_compute; reflexivity. Qed.
+
+Lemma schema_ok_of msg fs : In (msg, fs) ALL_MESSAGES -> schema_ok (msg, fs) = true.
+Proof. intros H. destruct schemas_match_spec as [S _]. rewrite forallb_forall in S. apply S. exact H. Qed.
+
+(** P1: every member of every message carries the number the specification assigns to it and
+    is required exactly when the specification says so *)
+Theorem schema_field_spec msg fs f k :
+  In (msg, fs) ALL_MESSAGES -> In (f, k) fs ->
+  spec_of_field msg (f_rust f) = Some (f_key f, is_required (f_dflt f)).
+Proof.
+  intros Hm Hf. pose proof (schema_ok_of msg fs Hm) as S. cbn [schema_ok] in S.
+  apply andb_true_iff in S as [S _]. apply andb_true_iff in S as [S _]. apply andb_true_iff in S as [S _].
+  rewrite forallb_forall in S. specialize (S (f, k) Hf). unfold field_matches_spec in S. cbn [fst] in S.
+  destruct (spec_of_field msg (f_rust f)) as [[num req]|]; [|discriminate].
+  apply andb_true_iff in S as [S1 S2]. apply N.eqb_eq in S1. apply Bool.eqb_prop in S2. subst. reflexivity.
+Qed.
+
+Lemma asc_sorted l : asc l = true -> StronglySorted N.lt l.
+Proof.
+  intros H. apply Sorted_StronglySorted; [intros x y z; apply N.lt_trans|].
+  induction l as [|x l IH]; [constructor|]. destruct l as [|y l].
+  - constructor; constructor.
+  - cbn [asc] in H. apply andb_true_iff in H as [H1 H2]. constructor; [apply IH; exact H2|].
+    constructor. apply N.ltb_lt. exact H1.
+Qed.
+
+Lemma written_sub (fs : list fattr) : forall vals f,
+  In f (map fst (filter written (combine fs vals))) -> In f fs.
+Proof.
+  induction fs as [|g fs IH]; intros [|v vals] f; cbn [combine filter map]; try (intros []).
+  destruct (written (g, v)); cbn [map fst].
+  - intros [E|H]; [left; exact E|right; eapply IH; exact H].
+  - intros H. right. eapply IH; exact H.
+Qed.
+
+Lemma written_sorted (fs : list fattr) : forall vals,
+  StronglySorted N.lt (map f_key fs) ->
+  StronglySorted N.lt (map f_key (map fst (filter written (combine fs vals)))).
+Proof.
+  induction fs as [|g fs IH]; intros [|v vals] H; cbn [combine filter map]; try constructor.
+  inversion H as [|x l Hs Hall]. subst.
+  destruct (written (g, v)); cbn [map fst]; [|apply IH; exact Hs].
+  constructor; [apply IH; exact Hs|].
+  apply Forall_forall. intros n Hn. apply in_map_iff in Hn as [f [E Hf]]. subst n.
+  rewrite Forall_forall in Hall. apply Hall. apply in_map. eapply written_sub. exact Hf.
+Qed.
+
+(** P2: for every value of every message the integer keys on the wire are strictly ascending
+    (declaration order, G2, is ascending order) *)
+Theorem wire_keys_ascending msg fs vals :
+  In (msg, fs) ALL_MESSAGES ->
+  exists keys, map fst (ser_entries IntKeys (map fst fs) vals) = map (fun n => CInt (Z.of_N n)) keys
+               /\ StronglySorted N.lt keys.
+Proof.
+  intros Hm. exists (map f_key (map fst (filter written (combine (map fst fs) vals)))). split.
+  - rewrite ser_keys. rewrite !map_map. reflexivity.
+  - apply written_sorted. apply asc_sorted.
+    pose proof (schema_ok_of msg fs Hm) as S. cbn [schema_ok] in S.
+    apply andb_true_iff in S as [S _]. apply andb_true_iff in S as [S _]. apply andb_true_iff in S as [_ S].
+    rewrite map_map. exact S.
+Qed.
+
+(** P2': every message of the crate round-trips (T2 instantiated with the generated schemas) *)
+Theorem message_round_trip msg fs vals :
+  In (msg, fs) ALL_MESSAGES -> wt_fields fs vals = true ->
+  cbor_wf (ser_struct IntKeys (map fst fs) vals) = true ->
+  (depth (ser_struct IntKeys (map fst fs) vals) < cbor_fuel)%nat ->
+  de_msg fs (ser_msg fs vals) = Some (ser_struct IntKeys (map fst fs) vals).
+Proof.
+  intros Hm. apply de_msg_ser_msg.
+  pose proof (schema_ok_of msg fs Hm) as S. cbn [schema_ok] in S. apply andb_true_iff in S as [_ S]. exact S.
+Qed.
+
+(** P3: the [options] member: absent altogether it is [up = true, rk = uv = false]; present with
+    any subset of the three options, the missing ones take these defaults.  (27 = 3^3 cases:
+    each option absent, false or true.) *)
+Definition bytes_of_string (s : string) : bytes := map Ascii.N_of_ascii (list_ascii_of_string s).
+
+Definition opt_states : list (option bool) := [None; Some false; Some true].
+
+Definition option_entries (given : list (string * option bool)) : list (cbor * cbor) :=
+  flat_map (fun g : string * option bool =>
+              match snd g with Some b => [(CText (bytes_of_string (fst g)), CBool b)] | None => [] end) given.
+
+Definition option_expected (given : list (string * option bool)) : list (cbor * cbor) :=
+  map (fun g : string * option bool =>
+         (CText (bytes_of_string (fst g)),
+          CBool (match snd g with
+                 | Some b => b
+                 | None => match assoc (fst g) OPTION_DEFAULTS with Some d => d | None => false end
+                 end))) given.
+
+Definition options_field (fs : list (fattr * kind)) : option (fattr * kind) :=
+  find (fun fk : fattr * kind => String.eqb (f_rust (fst fk)) "options") fs.
+
+Definition options_defaults_ok (fs : list (fattr * kind)) : bool :=
+  match options_field fs with
+  | Some (f, k) =>
+      (* the member left out: Default::default() *)
+      match de_field (de_kind k) f (is_opt k) None with
+      | Some (Some c) => cbor_eqb c (CMap (option_expected [("rk", None); ("up", None); ("uv", None)]))
+      | _ => false
+      end
+      (* the member given with any subset of its options *)
+      && forallb (fun rk => forallb (fun up => forallb (fun uv =>
+           let given := [("rk", rk); ("up", up); ("uv", uv)] in
+           match de_kind k (CMap (option_entries given)) with
+           | Some c => cbor_eqb c (CMap (option_expected given))
+           | None => false
+           end) opt_states) opt_states) opt_states
+  | None => false
+  end.
+
+Theorem options_defaults : options_defaults_ok MC_REQUEST = true /\ options_defaults_ok GA_REQUEST = true.
+Proof. split; vm_compute; reflexivity. Qed.
+
+(** * Part S: status bytes *)
+
+Definition bytes256 : list N := map N.of_nat (seq 0 256).
+
+Lemma in_bytes256 b : b < 256 -> In b bytes256.
+Proof.
+  intros H. unfold bytes256. apply in_map_iff. exists (N.to_nat b). split; [apply N2Nat.id|].
+  apply in_seq. lia.
+Qed.
+
+Lemma sweep (p : N -> bool) : forallb p bytes256 = true -> forall b, b < 256 -> p b = true.
+Proof. intros H b Hb. rewrite forallb_forall in H. apply H. apply in_bytes256. exact Hb. Qed.
+
+(** S1: every byte converts to a status (the [.unwrap()] in [From<u8> for StatusCode] never
+    fires) and the status converts back to the same byte *)
+Theorem status_round_trip b : b < 256 ->
+  exists s, status_of_byte b = Some s /\ byte_of_status s = b.
+Proof.
+  intros Hb.
+  pose proof (sweep (fun b => match status_of_byte b with Some s => byte_of_status s =? b | None => false end)
+                    ltac:(vm_compute; reflexivity) b Hb) as H. cbn beta in H.
+  destruct (status_of_byte b) as [s|]; [|discriminate]. exists s. split; [reflexivity|]. apply N.eqb_eq. exact H.
+Qed.
+
+(** S2: the five classes partition the byte range, except that 0x00 is both [U2FError::Success]
+    and [Ctap2Error::Ok]; the conversion resolves it to [Ctap2Error::Ok] *)
+Definition in_table (t : list (string * N)) (b : N) : bool := existsb (fun e : string * N => snd e =? b) t.
+
+Definition class_count (b : N) : nat :=
+  (if in_table U2F_TABLE b then 1 else 0) + (if in_table CTAP2_TABLE b then 1 else 0)
+  + (if in_ranges EXTENSION_RANGES b then 1 else 0) + (if in_ranges VENDOR_RANGES b then 1 else 0)
+  + (if in_ranges UNKNOWN_SPEC_RANGES b then 1 else 0).
+
+Theorem status_classes_partition b : b < 256 -> class_count b = (if b =? 0 then 2%nat else 1%nat).
+Proof.
+  intros Hb. apply Nat.eqb_eq.
+  exact (sweep (fun b => Nat.eqb (class_count b) (if b =? 0 then 2%nat else 1%nat)) ltac:(vm_compute; reflexivity) b Hb).
+Qed.
+
+Theorem status_zero_is_ctap2_ok :
+  exists i, status_of_byte 0 = Some (S_Known i) /\ name_at CTAP2_TABLE i = "Ok"%string.
+Proof. eexists. split; vm_compute; reflexivity. Qed.
+
+(** no value is listed twice within a table (each status value has one name) *)
+Theorem status_tables_nodup :
+  nodupb N.eqb (map snd U2F_TABLE) = true /\ nodupb N.eqb (map snd CTAP2_TABLE) = true.
+Proof. split; vm_compute; reflexivity. Qed.
+
+(** which class a byte lands in *)
+Theorem status_class_of_byte b s : b < 256 -> status_of_byte b = Some s ->
+  match s with
+  | S_Known i => nth_error CTAP2_TABLE i = Some (name_at CTAP2_TABLE i, b)
+  | S_Ctap1 i => nth_error U2F_TABLE i = Some (name_at U2F_TABLE i, b) /\ in_table CTAP2_TABLE b = false
+  | S_Extension c => c = b /\ in_ranges EXTENSION_RANGES b = true
+  | S_Vendor c => c = b /\ in_ranges VENDOR_RANGES b = true
+  | S_Other c => c = b /\ in_ranges UNKNOWN_SPEC_RANGES b = true
+  end.
+Proof.
+  intros Hb Hs.
+  pose proof (sweep (fun b =>
+    match status_of_byte b with
+    | Some (S_Known i) =>
+        match nth_error CTAP2_TABLE i with Some (n, c) => String.eqb n (name_at CTAP2_TABLE i) && (c =? b) | None => false end
+    | Some (S_Ctap1 i) =>
+        match nth_error U2F_TABLE i with Some (n, c) => String.eqb n (name_at U2F_TABLE i) && (c =? b) | None => false end
+        && negb (in_table CTAP2_TABLE b)
+    | Some (S_Extension c) => (c =? b) && in_ranges EXTENSION_RANGES b
+    | Some (S_Vendor c) => (c =? b) && in_ranges VENDOR_RANGES b
+    | Some (S_Other c) => (c =? b) && in_ranges UNKNOWN_SPEC_RANGES b
+    | None => false
+    end) ltac:(vm_compute; reflexivity) b Hb) as H. cbn beta in H. rewrite Hs in H.
+  destruct s as [i|i|c|c|c].
+  - apply andb_true_iff in H as [H1 H2]. destruct (nth_error U2F_TABLE i) as [[n c]|]; [|discriminate].
+    apply andb_true_iff in H1 as [Hn Hc]. apply String.eqb_eq in Hn. apply N.eqb_eq in Hc. subst.
+    split; [reflexivity|]. apply negb_true_iff. exact H2.
+  - destruct (nth_error CTAP2_TABLE i) as [[n c]|]; [|discriminate].
+    apply andb_true_iff in H as [Hn Hc]. apply String.eqb_eq in Hn. apply N.eqb_eq in Hc. subst. reflexivity.
+  - apply andb_true_iff in H as [H1 H2]. apply N.eqb_eq in H1. split; assumption.
+  - apply andb_true_iff in H as [H1 H2]. apply N.eqb_eq in H1. split; assumption.
+  - apply andb_true_iff in H as [H1 H2]. apply N.eqb_eq in H1. split; assumption.
+Qed.
+
+(** S3: what the client reports.  [authenticate]: "no credentials" becomes
+    [CredentialNotFound], every other byte is passed through; [register]: every byte is passed
+    through, 0x2E included *)
+Definition werr_eqb (a b : werr) : bool :=
+  match a, b with
+  | WAuthenticatorError x, WAuthenticatorError y => x =? y
+  | WNamed x, WNamed y => String.eqb x y
+  | _, _ => false
+  end.
+
+Lemma werr_eqb_eq a b : werr_eqb a b = true -> a = b.
+Proof.
+  destruct a, b; cbn [werr_eqb]; try discriminate; intros H.
+  - apply N.eqb_eq in H. subst. reflexivity.
+  - apply String.eqb_eq in H. subst. reflexivity.
+Qed.
+
+Theorem client_status_mapping b s : b < 256 -> status_of_byte b = Some s ->
+  authenticate_error s = (if b =? CTAP2_ERR_NO_CREDENTIALS then WNamed "CredentialNotFound" else WAuthenticatorError b)
+  /\ webauthn_error_of_status s = authenticate_error s
+  /\ register_error s = WAuthenticatorError b.
+Proof.
+  intros Hb Hs.
+  pose proof (sweep (fun b =>
+    match status_of_byte b with
+    | Some s =>
+        werr_eqb (authenticate_error s)
+                 (if b =? CTAP2_ERR_NO_CREDENTIALS then WNamed "CredentialNotFound" else WAuthenticatorError b)
+        && werr_eqb (webauthn_error_of_status s) (authenticate_error s)
+        && werr_eqb (register_error s) (WAuthenticatorError b)
+    | None => false
+    end) ltac:(vm_compute; reflexivity) b Hb) as H. cbn beta in H. rewrite Hs in H.
+  apply andb_true_iff in H as [H H3]. apply andb_true_iff in H as [H1 H2].
+  repeat split; apply werr_eqb_eq; assumption.
 Qed.
